@@ -349,6 +349,15 @@ class RuleTable:
             return None
         if isinstance(v, (ast.Tuple, ast.List)):
             return None if any(isinstance(e, ast.Starred) for e in v.elts) else list(v.elts)
+        if isinstance(v, ast.BinOp) and isinstance(v.op, ast.Mult):
+            # *(("same",) * 2): repetition of a literal sequence by a constant
+            seq, k = (v.left, v.right) if isinstance(v.left, (ast.Tuple, ast.List)) else (v.right, v.left)
+            if isinstance(seq, (ast.Tuple, ast.List)) and isinstance(k, ast.Constant) and type(k.value) is int and 0 <= k.value <= 16 and not any(isinstance(e, ast.Starred) for e in seq.elts):
+                return list(seq.elts) * k.value
+            return None
+        if isinstance(v, ast.BinOp) and isinstance(v.op, ast.Add):
+            a_, b_ = self._expand_starred(m, v.left, env), self._expand_starred(m, v.right, env)
+            return None if a_ is None or b_ is None else a_ + b_
         if isinstance(v, (ast.GeneratorExp, ast.ListComp)) and len(v.generators) == 1 and not v.generators[0].ifs and isinstance(v.generators[0].target, ast.Name):
             g = v.generators[0]
             it = g.iter
